@@ -348,8 +348,13 @@ def mergeJoin (lk rk : Tuple → Cell) (ok : Tuple → Tuple → Bool) (left rig
 
 -- ---------------------------------------------------------------- count(*) fast path
 
-/-- kvexec `countAggKvIter`: `Map.Count()` of the primary index — legal only for a bare `count(*)`
-over a table (no filter), which is what the builder checks -/
+/-- `DoltTable.RowCount` (`Map.Count()` of the primary index) — what a bare `count(*)` over a table uses -/
 def countFast (rows : List Tuple) : Nat := rows.length
+
+/-- kvexec `countAggKvIter.Next`: one pass over the source (table or index, **no filter** — the builder
+requires `srcFilter == nil`), skipping NULLs of the counted column only when the schema says the
+column is nullable; `count(<literal>)` has `nullable = false`. -/
+def countAgg (nullable : Bool) (col : Tuple → Cell) (rows : List Tuple) : Nat :=
+  (rows.filter (fun r => !(nullable && (col r).isNone))).length
 
 end DoltVerif.Query
